@@ -16,7 +16,7 @@ ALPHA = [("s", "a", None, []), ("e", "a", None), ("s", "b", None, [("k", "v")]),
          ("d", "x"), ("d", " "), ("d", "\n "), ("d", ""), ("x", None), ("x", 4), ("x", 1)]
 # symbols used only in the random longer strings (they would blow up the exhaustive part)
 EXTRA = [("d", "\x0c"), ("d", "\x0b "), ("d", "\t\r"), ("d", "\xa0"), ("e", "rt", None), ("s", "template", None, []),
-         ("e", "template", None), ("s", "textarea", None, []), ("e", "textarea", None), ("e", "[document]", None),
+         ("e", "template", None), ("s", "textarea", None, []), ("e", "textarea", None), ("e", "[document]", None), ("s", "[document]", None, []), ("s", "[document]", "p", []),
          ("s", "b", "q", []), ("e", "b", "q"), ("x", 6), ("x", 9)]
 # 'pre' is both whitespace-preserving and a string container here; 'a' is void
 CUSTOM = {"void": ["a"], "pw": ["b", "pre"], "containers": {"a": 8, "pre": 10}}
@@ -114,6 +114,12 @@ def run(ctx):
             seqs.append([ctx.rng.choice(alpha + EXTRA) for _ in range(ctx.rng.randint(5, 14))])
         for combo in itertools.product(EXTRA[:4] + [("d", "x"), ("s", "pre", None, []), ("e", "pre", None), ("s", "b", None, []), ("e", "b", None)], repeat=3):
             seqs.append(list(combo))
+        rootish = [("s", "[document]", None, []), ("e", "[document]", None), ("s", "[document]", "p", []), ("e", "[document]", "p"),
+                   ("s", "a", None, []), ("e", "a", None), ("d", "x")]
+        for n in range(1, 5):
+            for combo in itertools.product(rootish, repeat=n):
+                if any(e[1] == "[document]" for e in combo):
+                    seqs.append(list(combo))          # elements that carry the root's own name
         for i in range(0, len(seqs), 5000):
             check(ctx, cname, cfg, seqs[i:i + 5000])
         ctx.sample({"config": cname, "events": seqs[len(seqs) // 2]})
